@@ -65,6 +65,13 @@ def _find_defining_names(module_context, tree_name):
         if name.api_type == 'param' or name.tree_name is None \
                 or name.tree_name.parent.type == 'trailer':
             continue
+        parent = name.tree_name.parent
+        if parent.type in ('import_as_name', 'dotted_as_name') \
+                and parent.children[0] is name.tree_name and len(parent.children) > 1:
+            # In `from m import x as y` / `import x as y` the name before
+            # `as` is not bound in this context (`y` is), names spelled `x`
+            # in the same context are unrelated.
+            continue
         found_names |= set(_add_names_in_same_context(name.parent_context, name.string_name))
     return set(_resolve_names(found_names))
 
